@@ -53,8 +53,13 @@ func Translations(localization flows.Localization, itemUUID uuids.UUID, property
 func extractTemplates(v reflect.Value, lang i18n.Language, include func(i18n.Language, string)) {
 	switch typed := v.Interface().(type) {
 	case map[string]string:
-		for _, i := range typed {
-			include(lang, i)
+		keys := make([]string, 0, len(typed))
+		for k := range typed {
+			keys = append(keys, k)
+		}
+		sort.Strings(keys)
+		for _, k := range keys {
+			include(lang, typed[k])
 		}
 	case []string:
 		for _, i := range typed {
